@@ -244,6 +244,20 @@ def run(ctx):
     dwr = {a.state[1]: a.v for a in fx.find(domain="comb", target="wishbone.dat_w") if a.state}
     ok = dwr == {"DO-WRITE": "axi_lite.w.data"}
     ctx.ob("B5", ALW, "AXILite2Wishbone", "dat_w = w.data", ok, "" if ok else f"{dwr}")
+    # the Wishbone write is issued with the master's W beat, not before it: in the state that drives we, stb/cyc imply w.valid -- by
+    # their own value, or because every way into the state is taken under w.valid (AXI keeps valid up until the handshake)
+    wv = B.A("axi_lite.w.valid")
+    for st_ in sorted(wes):
+        into = [t for t in fx.trans if t.dst == st_ and t.src != st_]
+        entered_valid = bool(into) and all(B.entails(t.eff(), wv) for t in into)
+        for tgt in ("wishbone.stb", "wishbone.cyc"):
+            for a in [a for a in fx.find(domain="comb", target=tgt) if a.state and a.state[1] == st_]:
+                on = B.And(q.gformula(fx, a, inline=False), B.from_expr(a.value))
+                ok = entered_valid or B.entails(on, wv)
+                loose = [f"{t.src}->{st_} under {B.show(t.eff())}" for t in into if not B.entails(t.eff(), wv)]
+                ctx.ob("B5", ALW, "AXILite2Wishbone", f"{tgt} in {st_} only with a valid W beat", ok,
+                       "" if ok else f"{tgt} <= {a.v} in {st_}, entered without w.valid by {loose[:2]}: the Wishbone write is issued with "
+                                     f"the data / strobes of a W beat the master has not presented yet", a.line)
     fx = fx_of(ctx, ALW, "Wishbone2AXILite")
     for t, v in (("axi_lite.w.strb", "wishbone.sel"), ("axi_lite.w.data", "wishbone.dat_w")):
         d = fx.find(domain="comb", target=t)
